@@ -22,7 +22,17 @@ def check(case):
     for i, p in enumerate(curve.permeances):
         if p[0].units != 'kg/(m2*h*kPa)': fails.append("units %r" % p[0].units)
         if not (close(p[0].value, P1, 1e-5) and close(p[1].value, P2, 1e-5)):
-            fails.append("%s mode, point %d: curve reports permeances (%r, %r) for fluxes computed with (%r, %r)" % (mode, i, p[0].value, p[1].value, P1, P2))
+            tag = ""
+            if mode == 'pressure':
+                # native fingerprint of known finding K2: the reported permeances are J_i / (p_feed_i - pp * MOLE fraction of the permeate)
+                try:
+                    from pyvaporation.mixtures import get_partial_pressures as _gpp
+                    pf = _gpp(T, mix, xs[i]); J = fl[i]
+                    y = Composition(J[0] / (J[0] + J[1]), 'weight').to_molar(mix)
+                    k2 = (J[0] / (pf[0] - pp * y.first), J[1] / (pf[1] - pp * y.second))
+                    if close(p[0].value, k2[0], 1e-9) and close(p[1].value, k2[1], 1e-9): tag = "KNOWN[K2] "
+                except Exception: pass
+            fails.append(tag + "%s mode, point %d: curve reports permeances (%r, %r) for fluxes computed with (%r, %r)" % (mode, i, p[0].value, p[1].value, P1, P2))
     # from permeances (all units) and back in vacuum
     from pyvaporation.mixtures import get_partial_pressures
     for units in ('kg/(m2*h*kPa)', 'SI', 'GPU'):
